@@ -305,77 +305,157 @@ func runC08(c *Ctx) {
 	ebT, _ := envTypes(p)
 	ew := p.MustNamed("envelopingWriter")
 	ewWrite := p.MethodOf(types.NewPointer(ew), "Write")
-	ewWriteBytes := p.MethodOf(types.NewPointer(ew), "writeBytes")
 	remF := p.MustField("envelopingWriter", "remainingBytes")
-	if ewWrite == nil || ewWriteBytes == nil {
-		fatalf("anchor=envelopingWriter.Write/writeBytes not found")
+	curSinkF := p.MustField("envelopingWriter", "current")
+	if ewWrite == nil {
+		fatalf("anchor=envelopingWriter.Write not found")
 	}
-	// copy into env at envelopeLen-remaining
-	okOff := false
-	for _, call := range Calls(ewWriteBytes) {
-		if CalleeName(call) != "builtin copy" {
+	ewPtr := types.NewPointer(ew)
+	// ingest sites, by role: a copy into the writer's envelope array, or a Write on its current
+	// sink - in Write itself or in a helper method of the writer (today writeBytes)
+	isEnvCopy := func(in ssa.Instruction) bool {
+		call, ok := in.(ssa.CallInstruction)
+		if !ok || CalleeName(call) != "builtin copy" {
+			return false
+		}
+		dst, ok := call.Common().Args[0].(*ssa.Slice)
+		if !ok {
+			return false
+		}
+		fa, ok := dst.X.(*ssa.FieldAddr)
+		return ok && types.Identical(FieldOfAddr(fa).Type(), ebT) && types.Identical(fa.X.Type(), ewPtr)
+	}
+	isSinkWr := func(in ssa.Instruction) bool {
+		call, ok := in.(ssa.CallInstruction)
+		if !ok || !call.Common().IsInvoke() || N(call.Common().Method) != "Write" {
+			return false
+		}
+		return LoadedField(call.Common().Value) == curSinkF
+	}
+	ingestHelper := map[*ssa.Function]bool{}
+	for _, fn := range p.Funcs {
+		if fn == ewWrite || fn.Signature.Recv() == nil || !types.Identical(fn.Signature.Recv().Type(), ewPtr) {
 			continue
 		}
-		if dst, ok := call.Common().Args[0].(*ssa.Slice); ok && dst.Low != nil {
-			if fa, ok := dst.X.(*ssa.FieldAddr); ok && types.Identical(FieldOfAddr(fa).Type(), ebT) {
+		if fn.Signature.Results().Len() != 2 || !isIntegerLike(fn.Signature.Results().At(0).Type()) {
+			continue
+		}
+		has := false
+		ForEachInstr(fn, func(in ssa.Instruction) {
+			if isEnvCopy(in) {
+				has = true
+			}
+		})
+		if has {
+			ingestHelper[fn] = true
+		}
+	}
+	isHelperCall := func(in ssa.Instruction) bool {
+		ci, ok := in.(ssa.CallInstruction)
+		if !ok {
+			return false
+		}
+		for _, cal := range p.CalleesAt(ci) {
+			if ingestHelper[cal] {
+				return true
+			}
+		}
+		return false
+	}
+	// copy into env at envelopeLen-remaining
+	nCopies := 0
+	scanCopies := func(fn *ssa.Function) {
+		ForEachInstr(fn, func(in ssa.Instruction) {
+			if !isEnvCopy(in) {
+				return
+			}
+			nCopies++
+			call := in.(ssa.CallInstruction)
+			okOff := false
+			if dst, ok := call.Common().Args[0].(*ssa.Slice); ok && dst.Low != nil {
 				if bo, ok := dst.Low.(*ssa.BinOp); ok && bo.Op == token.SUB && LoadedField(bo.Y) == remF {
 					if k, isK := ConstInt(bo.X); isK && k == ebT.Underlying().(*types.Array).Len() {
 						okOff = true
 					}
 				}
 			}
-		}
+			c.Check(okOff, "C08.2", FuncName(fn), "envelope-fill-offset", in.Pos(),
+				"incoming envelope bytes are stored at offset envelopeLen-remainingBytes", "partial envelope bytes are not stored at offset envelopeLen-remainingBytes: an envelope split across writes is mis-assembled")
+		})
 	}
-	c.Check(okOff, "C08.2", FuncName(ewWriteBytes), "envelope-fill-offset", ewWriteBytes.Pos(),
-		"incoming envelope bytes are stored at offset envelopeLen-remainingBytes", "partial envelope bytes are not stored at offset envelopeLen-remainingBytes: an envelope split across writes is mis-assembled")
-	for _, call := range Calls(ewWrite) {
-		isWB := false
-		for _, cal := range p.CalleesAt(call) {
-			if cal == ewWriteBytes {
-				isWB = true
-			}
-		}
-		if !isWB {
-			continue
-		}
-		c.CountSite()
-		var nRes ssa.Value
-		if cv, ok := call.(*ssa.Call); ok {
-			for _, ref := range *cv.Referrers() {
-				if ex, ok := ref.(*ssa.Extract); ok && ex.Index == 0 {
-					nRes = ex
+	scanCopies(ewWrite)
+	for fn := range ingestHelper {
+		scanCopies(fn)
+	}
+	if nCopies == 0 {
+		c.Bad("C08.2", FuncName(ewWrite), "envelope-fill-offset", ewWrite.Pos(), "no copy of incoming bytes into the writer's envelope array found: shape changed")
+	}
+	// pass-through mode (remainingBytes == -1: nothing is framed, bytes are not counted)
+	passThrough := func(in ssa.Instruction) bool {
+		for _, f := range FactsAt(in.Block()) {
+			if cmp, ok := f.AsCmp(); ok && cmp.Op == token.EQL && LoadedField(cmp.X) == remF {
+				if k, isK := ConstInt(cmp.Y); isK && k == -1 {
+					return true
 				}
 			}
 		}
-		isDec := func(in ssa.Instruction) bool {
-			st, ok := in.(*ssa.Store)
-			if !ok {
-				return false
-			}
-			fa, ok := st.Addr.(*ssa.FieldAddr)
-			if !ok || FieldOfAddr(fa) != remF {
-				return false
-			}
-			bo, ok := st.Val.(*ssa.BinOp)
-			return ok && bo.Op == token.SUB && LoadedField(bo.X) == remF && bo.Y == nRes
-		}
-		stop := func(in ssa.Instruction) bool {
-			if IsReturn(in) {
-				return true
-			}
-			if ci, ok := in.(ssa.CallInstruction); ok && ci != call {
-				for _, cal := range p.CalleesAt(ci) {
-					if cal == ewWriteBytes {
-						return true
-					}
-				}
-			}
+		return false
+	}
+	isIngest := func(in ssa.Instruction) bool {
+		return (isEnvCopy(in) || isSinkWr(in) || isHelperCall(in)) && !passThrough(in)
+	}
+	// 'remainingBytes -= n' where n is what the ingest took: len(of the slice copied) and/or the
+	// count returned by the sink / the helper
+	isDec := func(in ssa.Instruction) bool {
+		st, ok := in.(*ssa.Store)
+		if !ok {
 			return false
 		}
-		found, path := PathQuery{Target: stop, Avoid: isDec}.Search(ewWrite, call)
-		c.Check(!found && nRes != nil, "C08.2", FuncName(ewWrite), "remaining-tracks-bytes-taken", call.Pos(),
+		fa, ok := st.Addr.(*ssa.FieldAddr)
+		if !ok || FieldOfAddr(fa) != remF {
+			return false
+		}
+		bo, ok := st.Val.(*ssa.BinOp)
+		if !ok || bo.Op != token.SUB || LoadedField(bo.X) != remF {
+			return false
+		}
+		ls := Origins(bo.Y)
+		if len(ls) == 0 {
+			return false
+		}
+		for _, l := range ls {
+			if len(l.Ops) > 0 {
+				return false
+			}
+			switch {
+			case l.Kind == "call" && CalleeName(l.Call) == "builtin len":
+			case l.Kind == "call" && l.Index == 0 && (isSinkWr(l.Call) || isHelperCall(l.Call)):
+			case l.Kind == "const":
+				// 'var n int' before an if/else that assigns it on both arms
+				if k, isK := ConstInt(l.V); !isK || k != 0 {
+					return false
+				}
+			default:
+				return false
+			}
+		}
+		return true
+	}
+	nIngest := 0
+	ForEachInstr(ewWrite, func(in ssa.Instruction) {
+		if !isIngest(in) {
+			return
+		}
+		nIngest++
+		c.CountSite()
+		stop := func(x ssa.Instruction) bool { return IsReturn(x) || (x != in && isIngest(x)) }
+		found, path := PathQuery{Target: stop, Avoid: isDec}.Search(ewWrite, in)
+		c.Check(!found, "C08.2", FuncName(ewWrite), "remaining-tracks-bytes-taken", in.Pos(),
 			"after every ingest remainingBytes is reduced by the number of bytes taken, on every path",
 			"after ingesting bytes a path continues without 'remainingBytes -= n': "+witnessString(p, path))
+	})
+	if nIngest == 0 {
+		c.Bad("C08.2", FuncName(ewWrite), "remaining-tracks-bytes-taken", ewWrite.Pos(), "no ingest of incoming bytes found in the re-framing writer's Write: shape changed")
 	}
 	// transformingWriter: missing = expecting - buffered
 	tw := p.MustNamed("transformingWriter")
